@@ -761,6 +761,60 @@ fn gen_growth(rng: &mut Rng, out: &mut dyn Write, mode: Mode, idx: usize, thorou
     }
 }
 
+/// node-table boundary profile (engine_reopen): NODES FIRST — the node table grows across its record-page
+/// boundaries (512 records per 8 KiB page) while nothing else owns a page behind it, in one session or
+/// over several (e.g. 500 + 12, or 512 + rest) with a reopen (drop) or close between them; only then
+/// properties on the nodes of the last page, reopen, compact, close (checkpointed), reopen — full dump and
+/// external-id lookups each time.  No node is created after the first compaction: with another structure
+/// behind the node table, growing it is the known finding C18-i2e-growth, not this stream's business.
+fn gen_boundary(rng: &mut Rng, out: &mut dyn Write, idx: usize) {
+    const TOTALS: [usize; 6] = [512, 1024, 511, 513, 1023, 1025];
+    let total = TOTALS[idx % TOTALS.len()];
+    let several = (idx / TOTALS.len()) % 2 == 1 || rng.chance(1, 2);
+    let mut parts: Vec<usize> = Vec::new();
+    if several {
+        if total > 520 && rng.chance(1, 2) {
+            parts.push(512);
+            let rest = total - 512;
+            let cut = 1 + rng.below(20) as usize;
+            if rest > cut { parts.push(rest - cut); parts.push(cut); } else { parts.push(rest); }
+        } else {
+            let cut = 1 + rng.below(20) as usize;
+            parts.push(total - cut);
+            parts.push(cut);
+        }
+    } else {
+        parts.push(total);
+    }
+    writeln!(out, "open").unwrap();
+    let mut next = 0usize;
+    for (pi, m) in parts.iter().enumerate() {
+        writeln!(out, "begin").unwrap();
+        for i in next..next + m {
+            let label = if i % 4 == 3 { "-" } else { LABELS[i % 3] };
+            writeln!(out, "node {} {}", 1000 + i, label).unwrap();
+        }
+        writeln!(out, "commit").unwrap();
+        next += m;
+        writeln!(out, "dump").unwrap();
+        writeln!(out, "extq {}", 1000 + next - 1).unwrap();
+        // node-only transactions publish no run: `close` rewrites the log here (checkpoint_on_close)
+        writeln!(out, "{}", if (pi + idx) % 2 == 0 { "reopen" } else { "close" }).unwrap();
+        writeln!(out, "dump").unwrap();
+        writeln!(out, "extq {}", 1000 + next - 1).unwrap();
+    }
+    // properties on the nodes of the last page (and two of the first)
+    writeln!(out, "begin").unwrap();
+    for i in [0usize, 1].into_iter().chain(total.saturating_sub(16)..total) {
+        writeln!(out, "nprop {} p0 i{}", i, i).unwrap();
+        if i % 2 == 0 {
+            writeln!(out, "nprop {} p1 s61", i).unwrap();
+        }
+    }
+    writeln!(out, "commit\ndump\nreopen\ndump\nextq {}", 1000 + total - 1).unwrap();
+    writeln!(out, "compact\ndump\nclose\ndump\nextq {}\nreopen\ndump\nextq {}", 1000 + total - 1, 1000 + total - 1).unwrap();
+}
+
 fn generate(rng: &mut Rng, n: usize, tier: &str, sink: &mut dyn Write, mode: Mode) {
     let thorough = tier == "thorough";
     let max_tx = if thorough { 12 } else { 6 };
@@ -771,6 +825,14 @@ fn generate(rng: &mut Rng, n: usize, tier: &str, sink: &mut dyn Write, mode: Mod
         if (mode == Mode::Compact || mode == Mode::Reopen) && n >= 30 && case % per == 1 {
             let mut buf: Vec<u8> = Vec::new();
             gen_growth(rng, &mut buf, mode, case / per, thorough);
+            tag_reads(std::str::from_utf8(&buf).unwrap(), sink);
+            continue;
+        }
+        // node-table boundary cases: 6 per quick run (each total once), 24 per thorough run
+        let bper = if thorough { n / 24 } else { n / 6 };
+        if mode == Mode::Reopen && n >= 60 && case % bper == 2 {
+            let mut buf: Vec<u8> = Vec::new();
+            gen_boundary(rng, &mut buf, case / bper);
             tag_reads(std::str::from_utf8(&buf).unwrap(), sink);
             continue;
         }
